@@ -158,7 +158,7 @@ func (c *Ctx) SecuritySchemes(n int, supportedOnly bool) []string {
 	haveBearer := false
 	for i := 0; i < n; i++ {
 		k := rapid.SampledFrom(kinds).Draw(t, "scheme_kind")
-		name := c.PlainName("sec", "scheme")
+		name := c.SchemeName("sec", "scheme")
 		var s *SecurityScheme
 		switch k {
 		case "bearer":
@@ -189,6 +189,23 @@ func (c *Ctx) SecuritySchemes(n int, supportedOnly bool) []string {
 		names = append(names, name)
 	}
 	return names
+}
+
+// SchemeName draws a key for components.securitySchemes in the shapes real documents use:
+// camelCase, snake_case, kebab-case, and a key that repeats the header it reads (x-api-key).
+func (c *Ctx) SchemeName(prefix, label string) string {
+	n := c.PlainName(prefix, label)
+	switch rapid.IntRange(0, 5).Draw(c.T, label+"_shape") {
+	case 0:
+		return "x-" + n
+	case 1:
+		return "X-" + strings.Title(n)
+	case 2:
+		return n + "_auth"
+	case 3:
+		return "api-" + n
+	}
+	return n
 }
 
 // securityRequirement draws 1..2 OR-alternatives of one scheme each.
@@ -561,6 +578,21 @@ func (c *Ctx) MapFat() *Doc {
 		}
 		c.AddSchema(c.CompName("Fat", "fat"), s)
 	}
+	// a recursive component (a tree) whose back references run through several aliases of it
+	if rapid.Bool().Draw(t, "fat_tree") {
+		tree := c.CompName("Tree", "fattree")
+		node := &Schema{Type: "object", Properties: map[string]*Schema{c.SafeName("label", "fattreeprop"): {Type: "string"}}}
+		for i, n := 0, rapid.IntRange(1, 4).Draw(t, "fat_tree_aliases"); i < n; i++ {
+			alias := c.CompName("Twig", "fattwig")
+			cs.Schemas[alias] = &Schema{Ref: RefSchemas + tree}
+			node.Properties[c.SafeName("kids", "fattreeprop")] = &Schema{Type: "array", Items: &Schema{Ref: RefSchemas + alias}}
+		}
+		if rapid.Bool().Draw(t, "fat_tree_direct") {
+			node.Properties[c.SafeName("self", "fattreeprop")] = &Schema{Type: "array", Items: &Schema{Ref: RefSchemas + tree}}
+		}
+		cs.Schemas[tree] = node
+		c.Tag("fat:recursive-tree")
+	}
 	// discriminator with >=4 mapping entries
 	{
 		prop := c.SafeName("kind", "fatdisc")
@@ -904,7 +936,7 @@ func (c *Ctx) SecurityDoc(kinds []string) *Doc {
 	if ka == "bearer" && kb == "bearer" {
 		kb = "apikey-header" // goag has a single bearer hook
 	}
-	a, b := c.PlainName("sa", "schemeA"), c.PlainName("sb", "schemeB")
+	a, b := c.SchemeName("sa", "schemeA"), c.SchemeName("sb", "schemeB")
 	cs := c.comps()
 	cs.SecuritySchemes = map[string]*SecurityScheme{a: c.scheme(ka, "a"), b: c.scheme(kb, "b")}
 	c.Tag("schemeA:" + ka)
@@ -1001,7 +1033,7 @@ func (c *Ctx) CorsDoc() *Doc {
 		names = c.SecuritySchemes(rapid.IntRange(1, 3).Draw(t, "nschemes"), true)
 		if rapid.IntRange(0, 2).Draw(t, "cors_unsupported_schemes") == 0 {
 			for _, k := range []string{"basic", "oauth2", "apikey-cookie", "oidc"}[rapid.IntRange(0, 3).Draw(t, "cors_unsupported_from"):] {
-				name := c.PlainName("sec", "uscheme")
+				name := c.SchemeName("sec", "uscheme")
 				c.comps().SecuritySchemes[name] = c.scheme(k, name)
 				names = append(names, name)
 				c.Tag("scheme:" + k)
@@ -1057,6 +1089,12 @@ func (c *Ctx) CorsDoc() *Doc {
 				switch rapid.IntRange(0, 3).Draw(t, "op_sec") {
 				case 0:
 					sec := c.securityRequirement(names)
+					// an empty alternative ("anonymous is fine too") reads no header and hides none
+					if rapid.IntRange(0, 3).Draw(t, "anonymous_alternative") == 0 {
+						at := rapid.IntRange(0, len(sec)).Draw(t, "anonymous_at")
+						sec = append(sec[:at:at], append([]map[string][]string{{}}, sec[at:]...)...)
+						c.Tag("cors:anonymous-alternative")
+					}
 					op.Security = &sec
 				case 1:
 					op.Security = &[]map[string][]string{}
